@@ -1,7 +1,7 @@
 /-
 Model of src/crypto/HmacSha256.cpp as it is: `compute` (long keys hashed, zero-padded key block,
 ipad/opad, two streaming hashers fed in two `update` calls each) and `verify` (length check, then
-OR-accumulated byte differences).  Sizes and pad bytes come from `Generated/C08.lean`.
+the accumulation loop with the operators the extractor read from the source).  Sizes and pad bytes come from `Generated/C08.lean`.
 Core Lean only.
 -/
 import EphVerif.Model.Sha256
@@ -25,14 +25,48 @@ def compute (key data : List UInt8) : List UInt8 :=
   let innerHash := Sha256.finalize (Sha256.update (Sha256.update Sha256.init iKeyPad) data)
   Sha256.finalize (Sha256.update (Sha256.update Sha256.init oKeyPad) innerHash)
 
-/-- the accumulation loop `diff |= expected[i] ^ mac[i]` for `i < expected.size()` -/
+/-! ### `HmacSha256::verify`
+
+The comparison loop is interpreted from what the extractor found in the source
+(`Generated/C08.lean`: `verifyAccInit`, `verifyAccOp`, `verifyDiffOp`, `verifyFinalCmp`,
+`verifyFinalConst`):
+
+    std::uint8_t diff = <init>;
+    for (i < expected.size()) diff <acc>= static_cast<std::uint8_t>(expected[i] <diff> mac[i]);
+    return diff <cmp> <const>;
+
+so a change of the accumulation operator (`|=` → `+=`, `^=`, `=` …), of the per-byte difference or
+of the final test changes the model, and `Lemmas/C08Hmac.lean` carries the obligation that they are
+`|`, `^`, `== 0` (which is what makes the loop an equality test). -/
+
+/-- a C++ binary operator on `uint8_t` operands, result truncated to `uint8_t`
+    (`""` is plain assignment: the right operand) -/
+def binOp (op : String) (a b : UInt8) : UInt8 :=
+  if op = "|" then a ||| b
+  else if op = "^" then a ^^^ b
+  else if op = "&" then a &&& b
+  else if op = "+" then a + b
+  else if op = "-" then a - b
+  else if op = "*" then a * b
+  else b
+
+/-- `diff <cmp> <const>` after integral promotion -/
+def finalTest (cmp : String) (c : Nat) (diff : UInt8) : Bool :=
+  if cmp = "==" then diff.toNat == c
+  else if cmp = "!=" then diff.toNat != c
+  else if cmp = "<" then decide (diff.toNat < c)
+  else if cmp = "<=" then decide (diff.toNat ≤ c)
+  else if cmp = ">" then decide (diff.toNat > c)
+  else decide (diff.toNat ≥ c)
+
+/-- the accumulation loop `diff <acc>= uint8(expected[i] <diff> mac[i])` for `i < expected.size()` -/
 def accumulateDiff : UInt8 → List UInt8 → List UInt8 → UInt8
-  | diff, e :: es, m :: ms => accumulateDiff (diff ||| (e ^^^ m)) es ms
+  | diff, e :: es, m :: ms => accumulateDiff (binOp verifyAccOp diff (binOp verifyDiffOp e m)) es ms
   | diff, _, _ => diff
 
 /-- `HmacSha256::verify` (`mac[i]` is in bounds because of the length check) -/
 def verify (key data mac : List UInt8) : Bool :=
   if mac.length ≠ hmacDigestSize then false
-  else accumulateDiff 0 (compute key data) mac == 0
+  else finalTest verifyFinalCmp verifyFinalConst (accumulateDiff (UInt8.ofNat verifyAccInit) (compute key data) mac)
 
 end EphVerif.Model.Hmac
